@@ -86,6 +86,7 @@ class C16(Engine):
         knobs = random.Random(mix(run_seed, 'knobs'))
         codec = knobs.choice(CODECS)
         big = knobs.random() < 0.12
+        numeric_enums = knobs.random() < 0.15
         spec, text, parsed = world.gen_world(run_seed, codec)
         messages = []
 
@@ -93,10 +94,12 @@ class C16(Engine):
             rng = random.Random(mix(run_seed, 'values'))
             drawn = world.draw_messages(parsed, rng,
                                         knobs.choice([3, 6, 10]), codec,
+                                        numeric_enums=numeric_enums,
                                         big=big)
             messages = [[name, ser(value)] for name, value in drawn]
 
         return {'spec': spec, 'codec': codec, 'messages': messages,
+                'numeric_enums': numeric_enums,
                 'cuts': None, 'seed': run_seed}
 
     def execute(self, case):
@@ -105,8 +108,12 @@ class C16(Engine):
         result = Result()
         codec = case['codec']
         text = specgen.render(case['spec'])
-        outcome = world.compile_text(text, codec)
+        outcome = world.compile_text(text, codec,
+                                     case.get('numeric_enums', False))
         result.log.append(['compile', codec, outcome[0]])
+
+        if case.get('numeric_enums'):
+            result.stats['runs-numeric-enums'] += 1
 
         if outcome[0] != 'ok':
             result.stats['rejected-program'] += 1
